@@ -52,6 +52,10 @@ func verifyFunction(p *program, fn *ssa.Function, fc *funcContract, safetyOnly b
 	fr.fc = fc
 	x.topFrame = fr
 	x.stack = []*ssa.Function{fn}
+	readOnlyCallee = func(c *ssa.Function) bool {
+		cc := p.cons.get(fnKey(c))
+		return cc != nil && !cc.assumeFrame && (cc.pure || (cc.assigns != nil && len(cc.assigns) == 0))
+	}
 	x.escInfo = escapeAnalysis(fn)
 	for _, prm := range fn.Params {
 		v := x.freshVal("p_"+prm.Name(), prm.Type(), st)
